@@ -6,6 +6,7 @@ Pure builtins (max, min, int, len, abs, float, round, slice, isinstance, tuple, 
 non-fresh terms so that the same expression evaluated twice is the same term.
 """
 import ast
+from fractions import Fraction as Fr
 
 from . import proto
 from .proto import C, T, is_c, is_t
@@ -44,6 +45,21 @@ class SymInterp(proto.Interp):
             return '0'
         if d.is_const():
             return '+' if d.cval() > 0 else '-'
+        # compound assumptions (e.g. chunk_size - overlap > 0): subtract the positive multiple that cancels one of its atoms
+        if depth < 3:
+            for p, strict in [(p, True) for p in self.pos] + [(p, False) for p in self.nonneg]:
+                atoms = [k for k in p.d if k != '1']
+                if len(atoms) < 2:
+                    continue
+                for a in atoms:
+                    if a in d.d and d.d[a] * p.d[a] > 0:
+                        k = Fr(d.d[a]) / Fr(p.d[a])
+                        r = d - p.scale(k)
+                        sg = '0' if r.is_zero() else self.sign(r, depth + 1)
+                        if sg == '+' or (sg in ('>=0', '0') and strict):
+                            return '+'
+                        if sg in ('>=0', '0'):
+                            return '>=0'
         const = d.cval()
         rest = Lin({k: v for k, v in d.d.items() if k != '1'})
         # sum of terms of one sign: c0 + sum c_i * atom_i with atoms of known sign
